@@ -31,10 +31,15 @@ let parse_pfx (s : string) : (n * n) =
 
 let parse_event (s : string) : uevent =
   (* A4~<hexaddr>/<len>~<id> *)
+  let nlist x = if x = "-" then [] else List.map dec_n (split '.' x) in
   match split '~' s with
-  | [k; p; id] ->
-    let v6 = (k.[1] = '6') in
-    if k.[0] = 'A' then UAnn (v6, parse_pfx p, dec_n id) else UWdr (v6, parse_pfx p, dec_n id)
+  | [k; p; id] when k.[0] = 'W' -> UWdr (k.[1] = '6', parse_pfx p, dec_n id)
+  | [k; p; id; a] when k.[0] = 'A' ->
+    (match split ';' a with
+     | [e; asns; orig; cl] ->
+       UAnn (k.[1] = '6', parse_pfx p, dec_n id,
+             { pa_empty = (e = "e1"); pa_asns = nlist asns; pa_originator = dec_n orig; pa_clusters = nlist cl })
+     | _ -> failwith ("bad attrs " ^ s))
   | _ -> failwith ("bad event " ^ s)
 
 let add_annotation (tok : string) : unit =
@@ -84,8 +89,12 @@ let num_key (x : n) : int * string = let h = hex_of_n x in (String.length h, h)
 let digest (st : rstate) : string =
   let cs = String.concat "." (List.map (fun x -> string_of_int (int_of_n x)) st.r_counters) in
   let ns = String.concat "," (List.map (fun n ->
-      Printf.sprintf "%s:%s:%s:%d:%d:o%s%sr%s%sa%se1" (hex_of_n n.n_vrf) (hex_of_n n.n_addr) (src_tok n.n_src)
-        (int_of_n n.n_as) (int_of_n n.n_localas) (b2s n.n_ap4) (b2s n.n_ap6) (b2s n.n_ap4) (b2s n.n_ap6) (b2s n.n_asn4))
+      (* k0c0: a BMP VRF has no contributing ASNs / cluster ids (Model.BMPRouter.bmp_contributing_asns) *)
+      Printf.sprintf "%s:%s:%s:%d:%d:o%s%sr%s%sa%se1:rid%d:k%sc%s" (hex_of_n n.n_vrf) (hex_of_n n.n_addr) (src_tok n.n_src)
+        (int_of_n n.n_as) (int_of_n n.n_localas) (b2s n.n_ap4) (b2s n.n_ap6) (b2s n.n_ap4) (b2s n.n_ap6) (b2s n.n_asn4)
+        (int_of_n n.n_rid)
+        (b2s (List.exists (fun x -> x = n.n_localas) bmp_contributing_asns))
+        (b2s (List.exists (fun x -> x = n.n_rid) bmp_contributing_cluster_ids)))
       st.r_nbrs) in
   let ig = String.concat "," (List.sort compare (List.map src_tok st.r_ignored)) in
   let vs = List.sort (fun a b -> compare (num_key a.v_rd) (num_key b.v_rd)) st.r_vrfs in
